@@ -188,7 +188,10 @@ class Replayer:
                 self.slice_check(res, X[i], lambda s_: numpy.trace(s_), "trace", exact=False)
         elif a in ("zeros", "ones"):
             es = tuple(rec["es"])
-            res = getattr(al, a)(es, dtype=X[i]) if self.variant % 2 == 0 or len(es) != 1 else getattr(al, a)(es[0], dtype=X[i])
+            if a == "zeros" and self.variant % 3 == 2:
+                res = al.UTPM.zeros(es, dtype=X[i])
+            else:
+                res = getattr(al, a)(es, dtype=X[i]) if self.variant % 2 == 0 or len(es) != 1 else getattr(al, a)(es[0], dtype=X[i])
         elif a in ("conjugate", "real", "imag"):
             res = getattr(al, a)(X[i])
             self.noalias.add(len(self.objs))        # numpy.real / imag / conjugate may or may not return views: not part of the property
